@@ -3,7 +3,7 @@ import Aiorpcx.C16.Model
 /-! Line-protocol helpers shared by `drv_c16` and `drv_c17` (no Mathlib).
 
     proto : `4` | `4a` | `5`
-    host  : `4:<8 hex>` | `6:<32 hex>` | `n:<code points>`
+    host  : `4:<8 hex>` | `6:<32 hex>` | `z:<32 hex>` (IPv6 with a zone) | `n:<code points>`
     code points : hex numbers separated by `.`, the empty string is `_`
     auth  : `-` | `u:<code points>/<code points>`  -/
 namespace Aiorpcx.Socks.Wire
@@ -31,6 +31,10 @@ def parseHost (s : String) : Option Host :=
       match Hex.parseBytes v with
       | some l => if h : l.length = 16 then some (.ipv6 ⟨l.toArray, by simp [h]⟩) else none
       | none => none
+    else if k == "z" then
+      match Hex.parseBytes v with
+      | some l => if h : l.length = 16 then some (.ipv6z ⟨l.toArray, by simp [h]⟩) else none
+      | none => none
     else if k == "n" then (parseCps v).map .name
     else none
   | _ => none
@@ -46,6 +50,16 @@ def parseAuth (s : String) : Option Auth :=
       | _, _ => none
     | _ => none
   | _ => none
+
+/-- one `getaddrinfo` entry of the proxy's address: `x` (`sock_connect` refused) | `s`
+    (`socket.socket()` raises) | `<stream hex>` (the peer answers) | `p<stream hex>` (it
+    answers, then `getpeername()` raises).  The segmentation is one byte per `recv`: outcome,
+    messages and unread bytes do not depend on it (`C17.segmentation_irrelevant`). -/
+def parseAttempt (s : String) : Option Attempt :=
+  if s == "x" then some .connectFails
+  else if s == "s" then some .socketFails
+  else if s.startsWith "p" then (Hex.parseBytes (s.drop 1).toString).map fun b => .peernameFails b (fun _ => 1)
+  else (Hex.parseBytes s).map fun b => .talks b (fun _ => 1)
 
 def showExc : PyExc → String
   | .socksProtocolError => "SOCKSProtocolError"
